@@ -9,7 +9,14 @@ theorem C02_run_ok_spec proves equivalent to the property's predicate on the exp
   (iv)  every run: discs of roots with status in {2,3,4} are pairwise disjoint (closed discs)
 A false clause is a violation of C02 directly (replay = .pol text + options).  Runs that end in an error,
 a timeout or a sanitizer report are C03's / C05's business and only counted.
-The status tables of the model are compared with include/mps/types.h of the snapshot on every run."""
+The status tables of the model are compared with include/mps/types.h of the snapshot on every run.
+
+Second layer (coq/Goal/StopModel.v, extracted to bin/stopq): the control flow that decides the statuses.
+  * stop_tie: thousands of generated states through the REAL mps_check_stop / mps_secular_ga_check_stop (harness/c02_stopfn.c)
+    against the extracted check_stop / sec_check_stop.  Predicate: a stop test that answers true (isolate/approximate goal; no
+    exit request, a phase set) on a state with an uncomputed root that is not OUT is a violation; any other difference is a
+    broken correspondence.
+  * the witness of C02_std_silent_cap_refuted is re-run on the real solver (-W 150) and must still leave through the silent branch."""
 import os, re, json, collections, math
 from fractions import Fraction as Fr
 import vf, solve as S, polygen as G, e2e
@@ -174,10 +181,285 @@ EXPECTED_ENUM = ["MPS_ROOT_STATUS_NEW_CLUSTERED", "MPS_ROOT_STATUS_CLUSTERED", "
                  "MPS_ROOT_STATUS_APPROXIMATED_IN_CLUSTER", "MPS_ROOT_STATUS_NOT_FLOAT", "MPS_ROOT_STATUS_NOT_DPE", "MPS_ROOT_STATUS_MULTIPLE"]
 
 
+
+# ----------------------------------------------------------------------------- stop tests: real functions vs extracted model
+def stop_states(rng, nu, ns):
+    """generated states aimed at the case splits of check_stop_true_computed / sec_check_stop_true_computed: mostly computed
+    states with one or two perturbed roots (so that `true` is frequent), every status 0..7, every inclusion, attrs, flags"""
+    lines = []; hist = collections.Counter()
+    for _ in range(nu):
+        g = rng.choice("iiaac"); mult = rng.random() < 0.3; props = rng.random() < 0.3
+        n = rng.choice([1, 1, 2, 3, 4, 5, 8, 13])
+        rs = [[rng.choice([2, 3, 4]), rng.choice([0, 1, 1, 1, 2]), rng.choice([0, 1])] for _ in range(n)]
+        for _ in range(rng.choice([0, 0, 1, 1, 2, n])):
+            k = rng.randrange(n); rs[k] = [rng.randrange(8), rng.randrange(3), rng.choice([0, 1])]
+        lines.append("U %s %d %d %d %s" % (g, mult, props, n, " ".join("%d %d %d" % tuple(r) for r in rs)))
+        hist["U goal=%s" % g] += 1
+    for _ in range(ns):
+        ex = 1 if rng.random() < 0.1 else 0; ph = rng.choice([0, 1, 2, 3, 1, 2, 3]); n = rng.choice([1, 2, 3, 5, 8])
+        sts = [rng.choice([2, 3, 4]) for _ in range(n)]
+        for _ in range(rng.choice([0, 0, 1, 2])): sts[rng.randrange(n)] = rng.randrange(8)
+        lines.append("S %d %d %d %s" % (ex, ph, n, " ".join(map(str, sts))))
+        hist["S phase=%d exit=%d" % (ph, ex)] += 1
+    return lines, hist
+
+
+def stop_predicate(line):
+    """True when an answer `true` of the real stop test on this state contradicts the property (uncomputed root not OUT)"""
+    t = line.split()
+    if t[0] == "U":
+        if t[1] == "c": return False
+        n = int(t[4]); v = [int(x) for x in t[5:5 + 3 * n]]
+        return any(v[3 * i] not in (2, 3, 4) and v[3 * i + 1] != 2 for i in range(n))
+    if t[1] == "1" or t[2] == "0": return False            # exit requested / no phase: the driver does not return roots on that answer
+    return any(int(x) not in (2, 3, 4) for x in t[4:])
+
+
+def stop_tie(ctx):
+    h = ctx.compile_harness(["c02_stopfn.c"], "c02_stopfn", mode="san")
+    lines, hist = stop_states(ctx.rng, ctx.pick(26000, 200000), ctx.pick(13000, 100000))
+    rc, out, err = vf.sh([h], input="\n".join(lines) + "\n", timeout=600, env=ctx.san_env())
+    if rc != 0: raise vf.InfraError("c02_stopfn failed rc=%d: %s" % (rc, err[-1500:]))
+    real = out.split("\n")[:len(lines)]
+    model = ctx.run_model_lines("stopq", lines, workers=4)
+    if len(real) != len(lines): raise vf.InfraError("c02_stopfn answered %d lines for %d" % (len(real), len(lines)))
+    diff = []; true_real = 0
+    for ln, a, b in zip(lines, real, model):
+        if a == "1":
+            true_real += 1
+            if stop_predicate(ln):
+                fn = "mps_check_stop" if ln[0] == "U" else "mps_secular_ga_check_stop"
+                ctx.violation("stop-test:%s:accepts-uncomputed-root" % fn, "%s returns true on a state with an uncomputed root that is not OUT: %s" % (fn, ln),
+                              {"stop_line": ln, "real": a, "model": b})
+        if a != b: diff.append((ln, a, b))
+    if diff and not ctx.violations:
+        ctx.violation("correspondence:stop-test", "the real stop test and the transcription differ on %d of %d generated states (first: %s real=%s model=%s); none of them violates the property's predicate"
+                      % (len(diff), len(lines), diff[0][0], diff[0][1], diff[0][2]), {"lines": [d[0] for d in diff[:20]]}, no_input=True)
+    return {"states": len(lines), "real_true": true_real, "differences": len(diff), "histogram": dict(hist), "sample": lines[:2]}
+
+
+
+# ----------------------------------------------------------------------------- event traces of the real solver
+WRAPPED = ["mps_standard_mpsolve", "mps_check_data", "mps_fsolve", "mps_dsolve", "mps_msolve", "mps_check_stop", "mps_fmodify", "mps_dmodify",
+           "mps_mmodify", "mps_inclusion", "mps_improve", "mps_thread_pool_wait", "mps_copy_roots"]
+
+
+def run_traced(binary, jobs, workdir, env, timeout, workers):
+    """like solve.run_many, but keeps the `C02EV` lines harness/c02_wrap.c prints (res.events)"""
+    import concurrent.futures, subprocess, time
+    os.makedirs(workdir, exist_ok=True)
+    def one(ij):
+        i, (c, o) = ij
+        path = os.path.join(workdir, "job%d.pol" % i)
+        with open(path, "w") as f: f.write(c["text"])
+        t0 = time.time()
+        try:
+            p = subprocess.run([binary, path] + list(o), stdout=subprocess.PIPE, stderr=subprocess.PIPE, env=env, timeout=timeout)
+            out = p.stdout.decode("utf-8", "replace"); err = p.stderr.decode("utf-8", "replace"); rc = p.returncode
+        except subprocess.TimeoutExpired:
+            r = S.SolveResult(); r.kind = "timeout"; r.events = []; return r
+        finally:
+            try: os.remove(path)
+            except OSError: pass
+        if rc != 0:
+            r = S.SolveResult(); r.rc = rc; r.stderr = err[-4000:]
+            r.kind = "sanitizer" if rc in (97, 98) or "AddressSanitizer" in err or "runtime error:" in err else "crash"
+        else:
+            r = S.parse_export(out); r.rc = rc; r.stderr = err[-2000:]
+        r.wall = time.time() - t0
+        r.events = [ln[6:] for ln in out.split("\n") if ln.startswith("C02EV ")]
+        return r
+    with concurrent.futures.ThreadPoolExecutor(max_workers=workers) as ex:
+        res = list(ex.map(one, list(enumerate(jobs))))
+    return [{"case": c, "opts": o, "res": r, "poly": None, "oracle": None, "why": ""} for (c, o), r in zip(jobs, res)]
+
+
+def _roots(tok, pos):
+    """`n st:inc:none ...` starting at tok[pos] -> (list of (st, inc, none), next position)"""
+    n = int(tok[pos]); rs = [tuple(int(x) for x in tok[pos + 1 + i].split(":")[:3]) for i in range(n)]
+    return rs, pos + 1 + n
+
+
+def _fmt_roots(rs): return "%d %s" % (len(rs), " ".join("%d %d %d" % r for r in rs))
+
+
+BAND = Fr(1, 1 << 40)
+
+
+def parse_mod(ev, prec_out, stats):
+    """one MOD event -> dict(variant, track, inphase, clusters [(cn, [members])], before [(st,inc,none)], w [bool], after [...]);
+    the radius tests are re-evaluated exactly from the exported operands; inside a 2^-40 band around equality (and where the
+    double eps_out underflows) the outcome the C operations gave is taken"""
+    t = ev.split(); v, track, inph, ncl = t[1], int(t[2]), int(t[3]), int(t[4]); pos = 5; cls = []
+    for _ in range(ncl):
+        cn, k = int(t[pos]), int(t[pos + 1]); cls.append((cn, [int(x) for x in t[pos + 2:pos + 2 + k]])); pos += 2 + k
+    n = int(t[pos]); pos += 1; before = []; w = []
+    single = {m[0] for cn, m in cls if cn == 1 and m}
+    eps = Fr(1, 1 << prec_out) if prec_out >= 0 else Fr(1 << -prec_out)
+    for i in range(n):
+        f = t[pos + i].split(":")
+        before.append((int(f[0]), int(f[1]), int(f[2])))
+        wc = f[7] == "1"
+        try:
+            rad = S.fr_of_rdpe(f[3] + ":" + f[4]); mod = S.fr_of_rdpe(f[5] + ":" + f[6])
+        except Exception:
+            rad = mod = None
+        if rad is None or mod is None or isinstance(rad, S.HugeDyadic) or isinstance(mod, S.HugeDyadic) or mod == 0 or (v == "f" and prec_out > 1000):
+            w.append(wc); stats["radius-test:taken-as-observed(non-finite or eps underflow)"] += 1; continue
+        rhs = mod * eps
+        ratio = rad / rhs
+        if abs(ratio - 1) < BAND:
+            w.append(wc); stats["radius-test:inside-band"] += 1
+        else:
+            ex = (rad < rhs) if (v == "f" and i in single) else (rad <= rhs)
+            if ex != wc: stats["radius-test:exact!=observed"] += 1
+            w.append(ex); stats["radius-test:exact"] += 1
+    pos += n
+    assert t[pos] == "AFTER"
+    after, _ = _roots(t, pos + 1)
+    return {"v": v, "track": track, "inphase": inph, "cls": cls, "before": before, "w": w, "after": after}
+
+
+def _fmt_cls(cls): return "%d %s" % (len(cls), " ".join("%d %d %s" % (cn, len(m), " ".join(map(str, m))) if m else "%d 0" % cn for cn, m in cls))
+
+
+def std_line(events, stats):
+    """the classic driver's events of one solve -> (`D` line for bin/stopq, observed dict, M lines, I lines) or None"""
+    if not events or not events[0].startswith("STD_BEGIN"): return None
+    b = events[0].split()
+    goal = "iac"[int(b[1])]; prec_out = int(b[10])
+    cfg = "D %s %s %s %s %s %s %s %s %s 0" % (goal, b[2], b[3], b[4], b[5], b[6], b[7], b[8], b[9])
+    evs = []; stops = []; mlines = []; ilines = []; obs = {"copy": None, "end": None, "incl": None, "pending_stop": None, "same_operands": None}
+    last_inphase_m = None; xs_done = False; first_phase = None; rounds = None; imp = None; bad = []
+    def need_xs(ncl):
+        nonlocal xs_done
+        if not xs_done: evs.append("XS %d" % ncl); xs_done = True
+    for ev in events[1:]:
+        t = ev.split(); tag = t[0]
+        if tag in ("FS", "DS", "MS"):
+            rs, _ = _roots(t, 2 if tag == "FS" else 1)
+            if first_phase is None: first_phase = tag
+            evs.append(("FS %s " % t[1] if tag == "FS" else tag + " ") + _fmt_roots(rs)); obs["pending_stop"] = rs
+        elif tag == "STOP":
+            rs, _ = _roots(t, 2); stops.append(t[1])
+            if obs["pending_stop"] != rs: bad.append("stop test read other roots than the phase left")
+            obs["pending_stop"] = None
+        elif tag == "MOD":
+            m = parse_mod(ev, prec_out, stats)
+            mlines.append(("M %s %d %s %d %s %d %s" % (m["v"], m["track"], _fmt_cls(m["cls"]), len(m["w"]), " ".join("1" if x else "0" for x in m["w"]),
+                                                        len(m["before"]), " ".join(str(r[0]) for r in m["before"])), [r[0] for r in m["after"]]))
+            if m["inphase"]:
+                if m["v"] == "m": last_inphase_m = (m["cls"], m["w"])
+            elif m["v"] == "m" and m["track"] == 1:
+                evs.append("MM %s %d %s %d %s" % (_fmt_cls(m["cls"]), len(m["w"]), " ".join("1" if x else "0" for x in m["w"]), len(m["after"]),
+                                                  " ".join("%d %d" % (r[1], r[2]) for r in m["after"])))
+                obs["same_operands"] = (last_inphase_m == (m["cls"], m["w"]))
+            else: bad.append("unexpected modify call outside a phase: " + ev[:40])
+        elif tag == "INCL":
+            need_xs(int(t[1])); evs.append("IN %s" % t[2]); obs["incl"] = t[2]
+        elif tag == "IMP_BEGIN":
+            rs, _ = _roots(t, 6); imp = {"hdr": t[1:6], "roots": rs}; rounds = []
+        elif tag == "IMP_ROUND":
+            n = int(t[1]); rounds.append([x.split(":")[2] for x in t[2:2 + n]])
+        elif tag == "IMP_END":
+            rs, _ = _roots(t, 2)
+            imp["rounds"] = rounds; imp["over"] = t[1]; imp["after"] = rs
+            rtxt = "%d %s" % (len(rounds), " ".join("%d %s" % (len(r), " ".join(r)) for r in rounds)) if rounds else "0"
+            ilines.append(("I %s %s %s %s %s %s" % (imp["hdr"][0], imp["hdr"][1], imp["hdr"][2], imp["hdr"][3], rtxt, _fmt_roots(imp["roots"])), imp))
+            obs["imp"] = imp
+        elif tag == "COPY":
+            rs, _ = _roots(t, 5); obs["copy"] = {"ncl": int(t[1]), "over": t[2], "mpwp": t[3], "err": t[4], "roots": rs}
+        elif tag == "STD_END":
+            obs["end"] = {"err": t[1], "over": t[2]}
+    # exit_sub marker and improve event, in the order the driver makes the calls
+    if obs["copy"] is not None or obs["incl"] is not None:
+        if not xs_done:
+            evs.append("XS %d" % obs["copy"]["ncl"]); xs_done = True
+    if obs.get("imp"):
+        im = obs["imp"]
+        rtxt = "%d %s" % (len(im["rounds"]), " ".join("%d %s" % (len(r), " ".join(r)) for r in im["rounds"])) if im["rounds"] else "0"
+        evs.append("IM %s %s" % (im["hdr"][3], rtxt))
+    if b[4] == "1" or b[5] == "0": head = []
+    elif first_phase is None: head = ["CD 0 1"]                # no phase was entered: mps_check_data raised an error
+    else: head = ["CD %d 0" % (first_phase == "DS")]
+    evs = head + evs
+    obs["stops"] = stops; obs["bad"] = bad; obs["goal"] = goal
+    return "%s %d %s" % (cfg, len(evs), " ".join(evs)), obs, mlines, ilines
+
+
+def trace_tie(ctx, recs):
+    """replay every solve's event trace through the extracted acceptors (std_run, modify_roots, improve)"""
+    stats = collections.Counter(); dl = []; ml = []; il = []
+    for rec in recs:
+        r = rec["res"]; evs = getattr(r, "events", None) or []
+        rec["silent"] = False
+        if not evs: continue
+        try:
+            out = std_line(evs, stats)
+        except Exception as e:
+            stats["trace-unparsed"] += 1; rec["trace_error"] = repr(e)[:200]; continue
+        if out is None:
+            stats["trace:not-the-classic-driver"] += 1; continue
+        line, obs, mlines, ilines = out
+        dl.append((rec, line, obs))
+        for m in mlines: ml.append((rec, m[0], m[1]))
+        for i in ilines: il.append((rec, i[0], i[1]))
+    douts = ctx.run_model_lines("stopq", [x[1] for x in dl], workers=4) if dl else []
+    mouts = ctx.run_model_lines("stopq", [x[1] for x in ml], workers=4) if ml else []
+    iouts = ctx.run_model_lines("stopq", [x[1] for x in il], workers=4) if il else []
+    broken = []          # (what, rec, detail)
+    exits = collections.Counter(); sameop = collections.Counter()
+    for (rec, line, obs), o in zip(dl, douts):
+        t = o.split()
+        if obs["bad"]: broken.append(("driver:" + obs["bad"][0], rec, line[:300]))
+        if t[0] != "OK":
+            broken.append(("driver:event order not accepted by std_run (%s)" % o[:40], rec, line[:400])); exits["rejected"] += 1; continue
+        ex, over, comp, mpwp, stops, roots = t[1], t[2], t[3], t[4], t[5], t[6]
+        exits[ex] += 1
+        if obs["same_operands"] is not None: sameop["driver mmodify has msolve's last operands" if obs["same_operands"] else "driver mmodify operands differ from msolve's last"] += 1
+        ostops = "".join(reversed(obs["stops"])) or "-"
+        if stops != ostops: broken.append(("driver:stop test results %s, model %s" % (ostops, stops), rec, line[:400]))
+        if obs["copy"] is not None:
+            c = obs["copy"]
+            oroots = ",".join("%d:%d:%d" % x for x in c["roots"]) or "-"
+            if roots != oroots: broken.append(("driver:returned roots %s, model %s" % (oroots[:80], roots[:80]), rec, line[:400]))
+            if over != c["over"]: broken.append(("driver:over_max %s, model %s" % (c["over"], over), rec, line[:400]))
+            if mpwp != c["mpwp"] and ex in ("loop", "overmax", "silent"): broken.append(("driver:mpwp %s, model %s" % (c["mpwp"], mpwp), rec, line[:400]))
+            if ex in ("resume", "newton", "checkdata", "inclusion"): broken.append(("driver:model says error exit %s but roots were copied" % ex, rec, line[:400]))
+        elif ex not in ("resume", "newton", "checkdata", "inclusion"):
+            broken.append(("driver:model says exit %s but mps_copy_roots was not reached" % ex, rec, line[:400]))
+        rec["silent"] = (ex == "silent"); rec["exit"] = ex
+    nm = 0
+    for (rec, line, after), o in zip(ml, mouts):
+        t = o.split(); nm += 1
+        if len(t) != 3: broken.append(("modify:model answered %s" % o[:40], rec, line[:300])); continue
+        if t[0] != "1": broken.append(("modify:clusters are not a partition of the roots", rec, line[:300])); continue
+        if t[1] != ",".join(map(str, after)): broken.append(("modify:statuses after the call %s, model %s" % (after, t[1]), rec, line[:300]))
+    ni = 0
+    for (rec, line, imp), o in zip(il, iouts):
+        t = o.split(); ni += 1
+        if t[0] != "OK": broken.append(("improve:rounds not accepted by the model (%s)" % o[:30], rec, line[:300])); continue
+        oa = ",".join(str(x[0]) for x in imp["after"])
+        if t[4] != oa or t[1] != imp["over"] and not (imp["over"] == "1" and t[1] == "0" and False):
+            broken.append(("improve:statuses/over_max after mps_improve %s/%s, model %s/%s" % (oa, imp["over"], t[4], t[1]), rec, line[:300]))
+        stats["improve:skipped" if t[3] == "1" else "improve:rounds=%s" % (t[2] if int(t[2]) < 6 else ">=6")] += 1
+    if stats["radius-test:exact!=observed"]:
+        broken.append(("modify:the radius test of modify.c differs from its exact value outside the 2^-40 band (%d times)" % stats["radius-test:exact!=observed"], None, ""))
+    return {"driver_traces_replayed": len(dl), "modify_calls_replayed": nm, "improve_calls_replayed": ni, "exit_histogram": dict(exits),
+            "mmodify_operands": dict(sameop), "trace_stats": dict(stats), "broken": len(broken)}, broken
+
+
+SILENT_TEXT = ("Monomial;\nDegree=3;\nRational;\nReal;\nDense;\n\n"
+               "1267650600228229401496703205377/633825300114114700748351602688\n"
+               "-3802951800684688204490109616129/1267650600228229401496703205376\n"
+               "-1/1267650600228229401496703205376\n1/1\n")        # (x-1)(x-1-2^-100)(x+2)
+SILENT_OPTS = ["-a", "u", "-G", "i", "-o", "100", "-W", "150", "-j", "1"]
+
 def run(ctx):
     ctx.prove()
     ctx.proof_violation_if_broken()
-    binary = ctx.compile_harness(["vf_solve.c"], "vf_solve", mode="san")
+    binary = ctx.compile_harness(["vf_solve.c", "c02_wrap.c"], "vf_solve_c02", mode="san", extra_ldflags=" ".join("-Wl,--wrap=" + f for f in WRAPPED))
+    stop_cov = stop_tie(ctx) if not ctx.replay else {}
     BUDGET[0] = ctx.pick(6e8, 3e10)
     env = ctx.san_env()
     rng = ctx.rng
@@ -197,7 +479,10 @@ def run(ctx):
                if c["cls"] != "multiple-roots" and S.is_squarefree(c["coeffs"]) and any(not S.cis0(x) for x in c["coeffs"][:-1])][:nstd]
         fam = family_cases(rng, nfam)
         cf, big = configs(ctx)
-        co = [({"name": "witness-stale-status4", "cls": "family-closepair", "text": WITNESS_TEXT, "coeffs": None, "degree": 3}, ["-a", "u", "-G", "a", "-B", "53"])]
+        co = [({"name": "witness-stale-status4", "cls": "family-closepair", "text": WITNESS_TEXT, "coeffs": None, "degree": 3}, ["-a", "u", "-G", "a", "-B", "53"]),
+              ({"name": "witness-silent-precision-cap", "cls": "witness-silent-cap", "text": SILENT_TEXT, "coeffs": None, "degree": 3}, SILENT_OPTS),
+              ({"name": "witness-silent-precision-cap-128", "cls": "witness-silent-cap", "text": SILENT_TEXT, "coeffs": None, "degree": 3}, ["-a", "u", "-G", "a", "-o", "100", "-W", "128", "-j", "1"]),
+              ({"name": "cap-100-sets-over-max", "cls": "witness-silent-cap", "text": SILENT_TEXT, "coeffs": None, "degree": 3}, ["-a", "u", "-G", "i", "-o", "100", "-W", "100", "-j", "1"])]
         def heavy(o):          # many output bits => multiprecision centres of thousands of bits => slow exact evaluation
             return ("-o" in o and int(o[o.index("-o") + 1]) >= 57) or ("-B" in o and int(o[o.index("-B") + 1]) >= 128)
         for c in std + fam:
@@ -223,9 +508,11 @@ def run(ctx):
                 for c in rng.sample(small, 3):
                     co.append((c, o))
     ctx.log("running %d solves" % len(co))
-    nworkers = int(json.load(open(ctx.replay)).get("workers", 16)) if ctx.replay else 16
-    recs = e2e.run_records(ctx, binary, co, env, timeout=ctx.pick(40, 600), workers=nworkers)
+    nworkers = int(json.load(open(ctx.replay)).get("workers", 16)) if ctx.replay else int(os.environ.get("C02_WORKERS", "16"))
+    recs = run_traced(binary, co, os.path.join(ctx.scratch, "jobs"), env, ctx.pick(40, 600), nworkers)
     ctx.log("solves done")
+    trace_cov, broken = trace_tie(ctx, recs)
+    ctx.log("traces replayed: %s" % {k: v for k, v in trace_cov.items() if k != "trace_stats"})
     # --- evaluation by the extracted model
     stats = collections.Counter(); lines = []; keep = []
     for rec in recs:
@@ -299,6 +586,7 @@ def run(ctx):
             form = (r.poly or {}).get("type", "?").replace("mps_", "").replace("_poly", "").replace("_equation", "")
             mode = "".join(":mode=" + x for x in ("-c", "-m") if x in opts)
             sig = "goal:%s:status=%d:alg=%s:input=%s%s" % (goal, sts[i], alg, form, mode)
+            if rec.get("silent"): sig += ":exit=silent-precision-cap"
             ctx.violation(sig, "goal %s, no over_max: root %d of %s (%s) is returned with status %s; options %s"
                           % ("approximate" if goal == "a" else "isolate", i, c["name"], c["cls"], S.STATUS[sts[i]] if sts[i] < 8 else sts[i], " ".join(opts)),
                           dict(rp, root=i, clause="goal contract"))
@@ -310,6 +598,23 @@ def run(ctx):
                           dict(rp, roots=[i, j], clause="reported discs pairwise disjoint", discs=[[str(x) for x in S.discs_of(r)[k]] for k in (i, j)]))
         if not (hf or gf or ov):
             raise vf.InfraError("goalq verdict 0 without a failing clause: %r" % ln)
+    # --- the control-flow tie: a difference that no run turned into a violation of the property is a broken correspondence
+    if broken and not ctx.violations:
+        what, rec, detail = broken[0]
+        ctx.violation("correspondence:control-flow:" + what.split(":")[0], "%d trace replays differ from the transcription of coq/Goal/StopModel.v; first: %s (%s %s) %s"
+                      % (len(broken), what, rec["case"]["name"] if rec else "", " ".join(rec["opts"]) if rec else "", detail),
+                      {"differences": [b[0] for b in broken[:20]], "text": rec["case"]["text"] if rec else None, "opts": rec["opts"] if rec else None}, no_input=True)
+    # the witness of C02_std_silent_cap_refuted must leave the real driver through the silent branch (else the theorem is stale)
+    if not ctx.replay:
+        wit = [rec for rec in recs if rec["case"]["name"] == "witness-silent-precision-cap"]
+        ok_w = bool(wit) and wit[0].get("exit") == "silent" and wit[0]["res"].kind == "ok" and wit[0]["res"].meta.get("over_max") == 0 \
+            and any(o.status == 1 for o in wit[0]["res"].roots)
+        trace_cov["silent_cap_witness_reproduced"] = ok_w
+        capw = [rec for rec in recs if rec["case"]["name"] == "cap-100-sets-over-max"]
+        trace_cov["cap_100_sets_over_max"] = bool(capw) and capw[0]["res"].kind == "ok" and capw[0]["res"].meta.get("over_max") == 1
+        if not ok_w and not ctx.violations:
+            ctx.violation("correspondence:silent-cap-witness", "the witness of C02_std_silent_cap_refuted (-W 150) no longer leaves mps_standard_mpsolve through the silent branch (exit %s): the refutation theorem does not describe this tree"
+                          % (wit[0].get("exit") if wit else None), {"text": SILENT_TEXT, "opts": SILENT_OPTS}, no_input=True)
     # --- tables tie verdict (after the search above)
     if not tables_ok:
         if not ctx.violations:
@@ -341,6 +646,7 @@ def run(ctx):
            "goal_histogram": dict(hist_goal), "status_histogram": dict(hist_status), "phase_histogram": dict(hist_phase), "digits_histogram": dict(hist_digits), "threads_histogram": dict(hist_threads),
            "class_histogram": dict(collections.Counter(rec["case"]["cls"] for rec in keep)),
            "status_tables_match_header": tables_ok,
+           "stop_tests_real_vs_model": stop_cov, "control_flow_traces": trace_cov,
            "oracle_crosscheck_isolated_discs": dict(orc_hist),
            "samples": samples,
            "trusted_base": ["Coq 8.16.1 kernel; C02 theorems about real numbers use the stdlib axioms printed by Print Assumptions (sig_forall_dec, sig_not_dec, functional_extensionality_dep, classic)",
